@@ -73,7 +73,21 @@ def run(tier: str, budget: Budget, rnd, prop: str) -> StreamResult:
             N = 2 ** n
             mn = set(G.minimal_ids(n))
             op = rnd.choice(["setknown", "reveal", "reveal", "unreveal", "set", "unset", "stale", "stale_bulk", "setvalues",
-                             "compute", "compute", "compute", "undo", "copy"])
+                             "compute", "compute", "compute", "undo", "copy", "transfer"])
+            if op == "transfer":
+                # the game crosses a process boundary (pickled into a Pool worker, as gameplay.py / evaluation.py do) or is
+                # deep-copied: the object that comes out is the same game, and it is the one the history continues with
+                import copy as _copy
+                import pickle as _pickle
+                how = rnd.choice(["pickle", "pickle", "deepcopy"])
+                try:
+                    o["g"] = _pickle.loads(_pickle.dumps(g)) if how == "pickle" else _copy.deepcopy(g)
+                except Exception as e:      # noqa: BLE001
+                    res.disagree(f"{how} of a game raised", {"error": err_kind(e), "history": list(o["hist"])})
+                    break
+                o["hist"].append(f"{how} round trip (the history continues with the resulting object)")
+                res.count(f"op:transfer:{how}")
+                continue
             if op == "copy":
                 # a copy taken in the middle of a history (after computes): from here on original and copy are two games that
                 # share nothing — un-revealing in one must not reach the other (copy() is what MetaGame and the solvers use)
@@ -106,7 +120,16 @@ def run(tier: str, budget: Budget, rnd, prop: str) -> StreamResult:
                         res.count("setknown:same-list-object-edited-in-place")
                     else:
                         K = G.knowledge_random(n, rnd)
+                        if rnd.random() < 0.2:
+                            # nearly everything known: all but one or two coalitions
+                            K = [c_ for c_ in range(N) if c_ not in set(rnd.sample([x_ for x_ in range(N) if x_ not in mn] or [0], k=min(rnd.randint(1, 2), max(1, N - len(mn)))))]
+                            res.count("setknown:all-but-one-or-two")
                         rnd.shuffle(K)
+                        if rnd.random() < 0.3 and K:
+                            # a coalition named twice (e.g. minimal coalitions + chosen ones that include a singleton): legal, same value
+                            for _ in range(rnd.randint(1, 2)):
+                                K.insert(rnd.randrange(len(K) + 1), rnd.choice(K))
+                            res.count("setknown:repeated-coalition")
                         lst = o["shared"] = [Coalition(k) for k in K]
                     g.set_known_values([float(v[k]) for k in K], lst)
                     ln = f"tab setknown {name} {nlist(K)} {rlist([v[k] for k in K])}"
@@ -115,6 +138,9 @@ def run(tier: str, budget: Budget, rnd, prop: str) -> StreamResult:
                     # batch set WITHOUT a reset (set_values(values, coalitions)): knowledge grows by several coalitions at once
                     import numpy as np
                     cs = rnd.sample(range(N), rnd.randint(1, min(4, N)))
+                    if rnd.random() < 0.3:
+                        cs.insert(rnd.randrange(len(cs) + 1), rnd.choice(cs))      # a coalition named twice
+                        res.count("setvalues:repeated-coalition")
                     g.set_values(np.array([float(v[c]) for c in cs]), [Coalition(c) for c in cs])
                     ln = f"tab setvalues {name} {nlist(cs)} {rlist([v[c] for c in cs])}"
                     o["K"] |= set(cs)
